@@ -274,46 +274,41 @@ Proof.
   f_equal; [eapply F; eassumption | apply IH; assumption].
 Qed.
 
+Definition items_ok (p : aparam) (items : list str) : Prop :=
+  exists vs, Forall2 (fun raw v => convert (ap_elem p) raw = Some v /\ valid_value (ap_elem p) v = true) items vs /\
+             count_ok p vs = true /\ (ap_unique p = true -> distinct_values vs = true).
+
+Lemma bind_items_iff p items :
+  match conv_items (ap_elem p) items with
+  | None => AReject
+  | Some vs => if count_ok p vs && (if ap_unique p then distinct_values vs else true) then ABound vs else AReject
+  end <> AReject <-> items_ok p items.
+Proof.
+  unfold items_ok. destruct (conv_items (ap_elem p) items) as [vs|] eqn:C.
+  - destruct (count_ok p vs && (if ap_unique p then distinct_values vs else true)) eqn:K.
+    + split; [|discriminate]. intros _. exists vs. apply andb_prop in K as [K1 K2].
+      split; [apply conv_items_spec; exact C|]. split; [exact K1|]. intros U. rewrite U in K2. exact K2.
+    + split; [intros H; contradiction H; reflexivity|]. intros [vs' [F [K1 K2]]].
+      apply conv_items_spec in F. rewrite C in F. inversion F; subst vs'. rewrite K1 in K. cbn [andb] in K.
+      destruct (ap_unique p); [rewrite (K2 eq_refl) in K; discriminate | discriminate].
+  - split; [intros H; contradiction H; reflexivity|]. intros [vs' [F _]]. apply conv_items_spec in F. congruence.
+Qed.
+
 Theorem bind_array_iff p rd hk : bind_array p rd hk <> AReject <-> areq_ok p rd hk.
 Proof.
-  unfold bind_array, areq_ok. destruct (ap_required p) eqn:R; destruct hk; cbn [andb negb].
-  - destruct (items_of p rd) as [|i0 ir] eqn:I.
-    + split; [intros H; contradiction H; reflexivity | intros [_ [H _]]; specialize (H eq_refl); discriminate].
-    + destruct (conv_items (ap_elem p) (i0 :: ir)) as [vs|] eqn:C.
-      * destruct (count_ok p vs && (if ap_unique p then distinct_values vs else true)) eqn:K.
-        -- split; [|discriminate]. intros _. split; [reflexivity|]. split; [discriminate|]. intros _.
-           exists vs. apply andb_prop in K as [K1 K2]. split; [apply conv_items_spec; exact C|]. split; [exact K1|].
-           intros U. rewrite U in K2. exact K2.
-        -- split; [intros H; contradiction H; reflexivity|]. intros [_ [_ H]]. destruct (H ltac:(discriminate)) as [vs' [F [K1 K2]]].
-           apply conv_items_spec in F. rewrite C in F. inversion F; subst vs'. rewrite K1 in K. cbn [andb] in K.
-           destruct (ap_unique p); [rewrite (K2 eq_refl) in K; discriminate | discriminate].
-      * split; [intros H; contradiction H; reflexivity|]. intros [_ [_ H]]. destruct (H ltac:(discriminate)) as [vs' [F _]].
-        apply conv_items_spec in F. congruence.
-  - split; [intros H; contradiction H; reflexivity | intros [H _]; specialize (H eq_refl); discriminate].
-  - destruct (items_of p rd) as [|i0 ir] eqn:I.
-    + split; [|discriminate]. intros _. split; [discriminate|]. split; [reflexivity|]. intros H. contradiction H. reflexivity.
-    + destruct (conv_items (ap_elem p) (i0 :: ir)) as [vs|] eqn:C.
-      * destruct (count_ok p vs && (if ap_unique p then distinct_values vs else true)) eqn:K.
-        -- split; [|discriminate]. intros _. split; [discriminate|]. split; [discriminate|]. intros _.
-           exists vs. apply andb_prop in K as [K1 K2]. split; [apply conv_items_spec; exact C|]. split; [exact K1|].
-           intros U. rewrite U in K2. exact K2.
-        -- split; [intros H; contradiction H; reflexivity|]. intros [_ [_ H]]. destruct (H ltac:(discriminate)) as [vs' [F [K1 K2]]].
-           apply conv_items_spec in F. rewrite C in F. inversion F; subst vs'. rewrite K1 in K. cbn [andb] in K.
-           destruct (ap_unique p); [rewrite (K2 eq_refl) in K; discriminate | discriminate].
-      * split; [intros H; contradiction H; reflexivity|]. intros [_ [_ H]]. destruct (H ltac:(discriminate)) as [vs' [F _]].
-        apply conv_items_spec in F. congruence.
-  - destruct (items_of p rd) as [|i0 ir] eqn:I.
-    + split; [|discriminate]. intros _. split; [discriminate|]. split; [reflexivity|]. intros H. contradiction H. reflexivity.
-    + destruct (conv_items (ap_elem p) (i0 :: ir)) as [vs|] eqn:C.
-      * destruct (count_ok p vs && (if ap_unique p then distinct_values vs else true)) eqn:K.
-        -- split; [|discriminate]. intros _. split; [discriminate|]. split; [discriminate|]. intros _.
-           exists vs. apply andb_prop in K as [K1 K2]. split; [apply conv_items_spec; exact C|]. split; [exact K1|].
-           intros U. rewrite U in K2. exact K2.
-        -- split; [intros H; contradiction H; reflexivity|]. intros [_ [_ H]]. destruct (H ltac:(discriminate)) as [vs' [F [K1 K2]]].
-           apply conv_items_spec in F. rewrite C in F. inversion F; subst vs'. rewrite K1 in K. cbn [andb] in K.
-           destruct (ap_unique p); [rewrite (K2 eq_refl) in K; discriminate | discriminate].
-      * split; [intros H; contradiction H; reflexivity|]. intros [_ [_ H]]. destruct (H ltac:(discriminate)) as [vs' [F _]].
-        apply conv_items_spec in F. congruence.
+  unfold bind_array, areq_ok. fold (items_ok p (items_of p rd)).
+  destruct (ap_required p && negb hk) eqn:RK.
+  - split; [intros H; contradiction H; reflexivity|]. intros [H _].
+    apply andb_prop in RK as [R K]. rewrite (H R) in K. discriminate.
+  - assert (ap_required p = true -> hk = true) as Hk.
+    { intros R. rewrite R in RK. destruct hk; [reflexivity|discriminate]. }
+    destruct (items_of p rd) as [|i0 ir] eqn:I.
+    + destruct (must_have p) eqn:M.
+      * split; [intros H; contradiction H; reflexivity|]. intros [_ [H _]]. specialize (H eq_refl). discriminate.
+      * split; [|discriminate]. intros _. split; [exact Hk|]. split; [reflexivity|]. intros H. contradiction H. reflexivity.
+    + rewrite bind_items_iff. split.
+      * intros H. split; [exact Hk|]. split; [discriminate|]. intros _. exact H.
+      * intros [_ [_ H]]. apply H. discriminate.
 Qed.
 
 (* what the handler sees: the typed, validated values of the items, in order *)
@@ -322,7 +317,7 @@ Theorem bind_array_values p rd hk vs : bind_array p rd hk = ABound vs ->
   count_ok p vs = true /\ (ap_unique p = true -> distinct_values vs = true).
 Proof.
   unfold bind_array. destruct (ap_required p && negb hk); [discriminate|].
-  destruct (items_of p rd) as [|i0 ir] eqn:I; [destruct (ap_required p); discriminate|].
+  destruct (items_of p rd) as [|i0 ir] eqn:I; [destruct (must_have p); discriminate|].
   destruct (conv_items (ap_elem p) (i0 :: ir)) as [ws|] eqn:C; [|discriminate].
   destruct (count_ok p ws && (if ap_unique p then distinct_values ws else true)) eqn:K; [|discriminate].
   intros H. inversion H; subst ws. apply andb_prop in K as [K1 K2]. split; [apply conv_items_spec; exact C|]. split; [exact K1|].
